@@ -397,6 +397,65 @@ fn scopes_case(cx: &mut CaseCtx, input: Input) -> CaseResult {
     binding(cx, &p, &texts, &rendered)
 }
 
+// ---- positional kinds: what may stand as interface base / enum underlying type ------------------
+
+const POSITIONAL_TYPES: usize = 8;
+pub const POSITIONAL_TOTAL: u64 = (3 * POSITIONAL_TYPES) as u64;
+
+/// Every (position: only base, second base, underlying type) x (a primitive, an optional primitive,
+/// three anonymous types, a struct, an interface, a custom type): bound or E017, never dropped.
+fn positional_case(cx: &mut CaseCtx, input: Input) -> CaseResult {
+    let idx = input.index() as usize;
+    let (pos, ty) = (idx / POSITIONAL_TYPES, idx % POSITIONAL_TYPES);
+    let t = match ty {
+        0 => TypeM::prim("uint8"),
+        1 => TypeM::prim("int32").opt(),
+        2 => TypeM::seq(TypeM::prim("uint8")),
+        3 => TypeM::dict(TypeM::prim("uint8"), TypeM::named("S")),
+        4 => TypeM::result(TypeM::prim("bool"), TypeM::prim("string")),
+        5 => TypeM::named("S"),
+        6 => TypeM::named("I"),
+        _ => TypeM::named("C"),
+    };
+    let mut defs = vec![
+        DefM::Struct(StructM { name: "S".into(), ..Default::default() }),
+        DefM::Interface(InterfaceM { name: "I".into(), ..Default::default() }),
+        DefM::Custom(CustomM { name: "C".into(), ..Default::default() }),
+    ];
+    defs.push(match pos {
+        0 => DefM::Interface(InterfaceM { name: "Host".into(), bases: vec![t], ..Default::default() }),
+        1 => DefM::Interface(InterfaceM { name: "Host".into(), bases: vec![TypeM::named("I"), t], ..Default::default() }),
+        _ => DefM::Enum(EnumM {
+            name: "Host".into(),
+            unchecked: true,
+            underlying: Some(t),
+            enumerators: vec![EnumeratorM { pre: Prelude::default(), name: "X".into(), fields: None, value: Some(7), effective: 7 }],
+            ..Default::default()
+        }),
+    });
+    let mut p = Program {
+        files: vec![FileM {
+            path: "string-0".into(),
+            file_attrs: vec![],
+            module: Some(ModuleM { attrs: vec![], path: vec!["M".into()] }),
+            defs,
+        }],
+    };
+    p.fill_effective_values();
+    cx.nontrivial = true;
+    cx.label(["position-only-base", "position-second-base", "position-underlying-type"][pos]);
+    cx.label_if(matches!(ty, 2 | 3 | 4), "anonymous-type-in-named-position");
+    // base `I` twice (pos 1, ty 6) or a non-integral / optional underlying type are other rules' business (C04)
+    if (pos == 1 && ty == 6) || (pos == 2 && ty == 1) {
+        cx.label("skipped-other-rule");
+        return Ok(());
+    }
+    let rendered: Vec<Rendered> = crate::render::render_program(&p, &[], false);
+    let texts: Vec<String> = rendered.iter().map(|r| r.text.clone()).collect();
+    cx.sample_with(|| json!({"files": texts}));
+    binding(cx, &p, &texts, &rendered)
+}
+
 // ---- alias chains ---------------------------------------------------------------------------
 
 const CHAIN_MODULES: [&[&str]; 4] = [&["A"], &["A", "B"], &["D"], &["A", "B", "C"]];
@@ -560,7 +619,7 @@ impl Check for C03 {
         "C03"
     }
     fn rule(&self) -> String {
-        format!("families: scopes = all {SCOPES_TOTAL} arrangements of module levels A, A::B, A::B::C (also renamed to A, A::A, A::A::A and A, A::B, A::B::A, so that inner modules repeat an outer name) x definition `X` of kind none/struct/interface/alias/custom/enum at each level x referencing level x 12 spellings x 8 positions (field, parameter, return, sequence element, dictionary value, alias target, interface base, enum underlying) x 6 file orders x member-named-like-the-type (strided in the quick tier); alias-chains = proptest choice sequences -> chains of 1..4 aliases over 4 modules with an attribute per link, shared short names and every spelling; programs = random larger programs. Oracle: the reference resolver (outward scope search, '::' global, alias flattening with attribute accumulation): resolves <=> accepted, observed bindings == expected, a miss / wrong kind / loop is reported with an admissible code inside the offending reference's text, never silently bound elsewhere; every definition, field, enumerator and operation is retrievable through Ast::find_element. Non-trivial = shadowed at >= 2 levels, crosses files, or goes through an alias")
+        format!("families: scopes = all {SCOPES_TOTAL} arrangements of module levels A, A::B, A::B::C (also renamed to A, A::A, A::A::A and A, A::B, A::B::A, so that inner modules repeat an outer name) x definition `X` of kind none/struct/interface/alias/custom/enum at each level x referencing level x 12 spellings x 8 positions (field, parameter, return, sequence element, dictionary value, alias target, interface base, enum underlying) x 6 file orders x member-named-like-the-type (strided in the quick tier); positional = every (only base, second base, enum underlying type) x (primitive, optional primitive, sequence, dictionary, result, struct, interface, custom type): bound or reported, never dropped; alias-chains = proptest choice sequences -> chains of 1..4 aliases over 4 modules with an attribute per link, shared short names and every spelling; programs = random larger programs. Oracle: the reference resolver (outward scope search, '::' global, alias flattening with attribute accumulation): resolves <=> accepted, observed bindings == expected, a miss / wrong kind / loop is reported with an admissible code inside the offending reference's text, never silently bound elsewhere; every definition, field, enumerator and operation is retrievable through Ast::find_element. Non-trivial = shadowed at >= 2 levels, crosses files, or goes through an alias")
     }
     fn assumptions(&self) -> Vec<String> {
         vec![
@@ -596,6 +655,7 @@ impl Check for C03 {
         };
         vec![
             Family::enumerate("scopes", SCOPES_TOTAL, tier.pick(7, 1), scopes_case),
+            Family::enumerate("positional", POSITIONAL_TOTAL, 1, positional_case),
             Family::bytes("alias-chains", 64, tier.pick(6_000, 150_000), chains_case),
             Family::bytes("programs", 600, tier.pick(1_500, 30_000), move |cx, i| programs_case(cx, i, &cfg)),
             Family::replay_only("direct", |cx, i| {
